@@ -2,6 +2,7 @@ package main
 
 import (
 	"encoding/json"
+	"regexp"
 	"flag"
 	"fmt"
 	"os"
@@ -17,10 +18,20 @@ type PropConfig struct {
 	Funcs          []string `json:"funcs"`           // functions verified against their contracts
 	Safety         []string `json:"safety"`          // functions (or package prefixes ending in "...") swept for run-time panics
 	Lock           []string `json:"lock"`            // functions checked for lock discipline
+	SmtLemmas      []SmtLemma `json:"smt_lemmas"`
 	Lemmas         []string `json:"lemmas"`          // names of lemmas
 	Note           string   `json:"note"`
 	Unverified     []string `json:"unverified"`      // named gaps, reported in the evidence
 	MetaArguments  []string `json:"meta_arguments"`
+}
+
+type SmtLemma struct {
+	Name    string `json:"name"`
+	File    string `json:"file"`
+	Replay  string `json:"replay_template"` // Go test template instantiated with the model's values
+	Pkg     string `json:"replay_pkg"`
+	Run     string `json:"replay_run"`
+	Depends string `json:"depends_on"` // the contract clause that connects the lemma to the code
 }
 
 type KnownFinding struct {
@@ -165,7 +176,7 @@ func cmdCheck(args []string) int {
 	readJSON(filepath.Join(verifDir, "obligations.baseline.json"), &bl)
 	inBaseline := map[string]bool{}
 	for _, n := range bl.Obligations[*prop] {
-		inBaseline[n] = true
+		inBaseline[clauseKey(n)] = true
 	}
 
 	w, err := loadWorld()
@@ -247,6 +258,29 @@ func cmdCheck(args []string) int {
 	}
 	wg.Wait()
 
+	// closed SMT lemmas (string theory etc.); a sat answer carries a model that is replayed on the real code
+	type lemmaRes struct {
+		l      SmtLemma
+		status string
+		out    string
+		secs   float64
+	}
+	var lemmaResults []lemmaRes
+	for _, l := range cfg.SmtLemmas {
+		data, err := os.ReadFile(filepath.Join(verifDir, l.File))
+		if err != nil {
+			fmt.Printf("TOOL-ERROR lemma %s: %v\n", l.Name, err)
+			toolErrors++
+			continue
+		}
+		t := 20
+		if *tier == "thorough" {
+			t = 120
+		}
+		r := runSolvers(string(data), t, seed, true, []string{"z3-new", "cvc5"})
+		lemmaResults = append(lemmaResults, lemmaRes{l, r.Status, r.Output, r.Seconds})
+	}
+
 	// verdicts
 	openFinding := map[string]*KnownFinding{}
 	for i := range kf.Findings {
@@ -299,7 +333,7 @@ func cmdCheck(args []string) int {
 			}
 			continue
 		}
-		if !inBaseline[name] && !*writeBaseline && len(inBaseline) > 0 {
+		if !inBaseline[clauseKey(name)] && !*writeBaseline && len(inBaseline) > 0 {
 			// an obligation that never discharged on the unchanged tree: a failed proof is "undecided"
 			undecided = append(undecided, name)
 			counted--
@@ -315,6 +349,38 @@ func cmdCheck(args []string) int {
 			name, r.o.Kind, r.o.Func, r.o.Pos, r.o.Clause, r.res.All, r.tries, r.seconds)
 		path := writeReplay(*prop, name, detail, r.o.query(true))
 		fmt.Printf("VIOLATION property=%s replay=%s no-failing-input-found\n", *prop, path)
+	}
+	for _, lr := range lemmaResults {
+		name := "lemma::" + lr.l.Name
+		if f, ok := openFinding[name]; ok {
+			notClaimed = append(notClaimed, name)
+			seenFinding[f.ID] = true
+			if lr.status == "unsat" {
+				fmt.Printf("KNOWN-FINDING-GONE: property=%s %s (lemma %s now holds)\n", *prop, f.ID, lr.l.Name)
+			}
+			continue
+		}
+		counted++
+		if lr.status == "unsat" {
+			discharged++
+			solverTime["z3-new/cvc5"] += lr.secs
+			bySolver["smt-lemma"]++
+			samples = append(samples, map[string]interface{}{"obligation": name, "kind": "smt-lemma", "clause": lr.l.File + " (connected to the code by " + lr.l.Depends + ")", "solver": "z3-new/cvc5", "seconds": round3(lr.secs)})
+			continue
+		}
+		violations++
+		if lr.status == "sat" && lr.l.Replay != "" {
+			path, failed, out := replayModel(*prop, lr.l, lr.out)
+			if failed {
+				fmt.Printf("VIOLATION property=%s replay=%s\n", *prop, path)
+			} else {
+				fmt.Printf("TOOL-DISAGREEMENT lemma %s: the model does not fail on the real code: %s\n", lr.l.Name, firstLines(out, 3))
+				fmt.Printf("VIOLATION property=%s replay=%s no-failing-input-found\n", *prop, path)
+			}
+		} else {
+			path := writeReplay(*prop, name, "lemma "+lr.l.Name+" ("+lr.l.File+") is not discharged: "+lr.status+"\n"+lr.out, "")
+			fmt.Printf("VIOLATION property=%s replay=%s no-failing-input-found\n", *prop, path)
+		}
 	}
 	// known findings: witnesses
 	var kfOut []string
@@ -347,6 +413,14 @@ func cmdCheck(args []string) int {
 	if *writeBaseline {
 		if bl.Obligations == nil {
 			bl.Obligations = map[string][]string{}
+		}
+		keys := map[string]bool{}
+		for _, n := range provedNames {
+			keys[clauseKey(n)] = true
+		}
+		provedNames = provedNames[:0]
+		for k := range keys {
+			provedNames = append(provedNames, k)
 		}
 		sort.Strings(provedNames)
 		bl.Obligations[*prop] = provedNames
@@ -478,4 +552,49 @@ func fileSafe(s string) string {
 		}
 	}
 	return b.String()
+}
+
+var reRet = regexp.MustCompile(`@(ret|panic)[0-9]+`)
+var reConj = regexp.MustCompile(`(\.[0-9]+)+$`)
+var reSite = regexp.MustCompile(`#[0-9]+\.([0-9]+)`)
+
+// clauseKey identifies the contract clause an obligation comes from, independent of the return path,
+// the call-site ordinal and the conjunct it was split into (those change under harmless edits).
+func clauseKey(name string) string {
+	k := reRet.ReplaceAllString(name, "")
+	k = reConj.ReplaceAllString(k, "")
+	if strings.Contains(k, ":pre@") {
+		k = reSite.ReplaceAllString(k, ".$1")
+		k = reConj.ReplaceAllString(k, "")
+	}
+	return k
+}
+
+var reModelVal = regexp.MustCompile(`\(([A-Za-z_][A-Za-z0-9_]*) ("(?:[^"]|"")*"|[0-9]+|true|false)\)`)
+
+// replayModel instantiates the lemma's Go test template with the model values and runs it against /repo
+// (overlay, nothing written into /repo). Returns the replay file, whether the test failed, and its output.
+func replayModel(prop string, l SmtLemma, solverOut string) (string, bool, string) {
+	tmpl, err := os.ReadFile(filepath.Join(verifDir, l.Replay))
+	if err != nil {
+		return writeReplay(prop, "lemma::"+l.Name, "cannot read replay template: "+err.Error()+"\n"+solverOut, ""), false, ""
+	}
+	text := string(tmpl)
+	for _, m := range reModelVal.FindAllStringSubmatch(solverOut, -1) {
+		v := m[2]
+		if strings.HasPrefix(v, "\"") {
+			// SMT-LIB string literal -> Go string literal
+			inner := strings.ReplaceAll(v[1:len(v)-1], "\"\"", "\"")
+			v = fmt.Sprintf("%q", inner)
+		}
+		text = strings.ReplaceAll(text, "{{"+m[1]+"}}", v)
+	}
+	dir := filepath.Join(outDir(), "replays", prop)
+	os.MkdirAll(dir, 0o755)
+	path := filepath.Join(dir, fileSafe("lemma_"+l.Name)+"_replay_test.go")
+	header := fmt.Sprintf("// Counterexample of lemma %s (%s), model given by the solver:\n// %s\n// run: cd /repo && go test -overlay <ov.json mapping %s/zz_verif_witness_test.go to this file> -vet=off -run %s ./%s\n\n",
+		l.Name, l.File, strings.ReplaceAll(strings.TrimSpace(solverOut), "\n", " "), l.Pkg, l.Run, l.Pkg)
+	os.WriteFile(path, []byte(header+text), 0o644)
+	failed := runWitnessTest(path, l.Pkg, l.Run)
+	return path, failed, ""
 }
